@@ -278,8 +278,8 @@ func cmdCheck(args []string) int {
 	}
 	wg.Wait()
 	for _, r := range results {
-		fmt.Printf("obligation %-34s paths=%d ended=%d asserts=%d discharged=%d violations=%d queries=%d solver=%.1fs wall=%.1fs merges=%d\n",
-			r.Name, r.Paths, r.Ended, r.Asserts, r.Discharged, len(r.Violations), r.Queries, r.SolverTime.Seconds(), r.Wall.Seconds(), r.Merges)
+		fmt.Printf("obligation %-34s paths=%d ended=%d asserts=%d discharged=%d violations=%d queries=%d (cached %d) solver=%.1fs wall=%.1fs merges=%d\n",
+			r.Name, r.Paths, r.Ended, r.Asserts, r.Discharged, len(r.Violations), r.Queries, r.Cached, r.SolverTime.Seconds(), r.Wall.Seconds(), r.Merges)
 		for _, s := range r.Incon {
 			fmt.Printf("  inconclusive: %s\n", firstLines(s, 12))
 		}
